@@ -100,6 +100,22 @@ def order(cfg, crate, rep):
     body = crate.body("main")
     rep.fn("main")
     key = "%s|main" % cfg
+    # `main` may hand everything to a helper introduced later (`fn run(opts) -> Result<..>`): the ordering is then a
+    # property of that helper's flow graph; what stays in `main` (option parsing) must dominate the delegating call
+    from interp import known_fns
+    outer = []
+    for _ in range(3):
+        ws_ = common.mir_calls_deep(crate, body, lambda c: c == "cert::PemCertifiedKey::write")
+        blks_ = common.mir_blocks(body)
+        if len(ws_) >= 2 and len({w[0] for w in ws_}) == 1:
+            t_ = ws_[0][1]
+            tgt_ = common.facts_norm(t_.get("inst") or t_.get("callee") or "")
+            tgt_ = tgt_ if tgt_ in crate.bodies else common.facts_norm(t_.get("callee") or "")
+            if tgt_ in crate.bodies and tgt_ not in known_fns(crate.name) and "mir" in crate.bodies[tgt_]:
+                outer.append((body, ws_[0][0]))
+                body = crate.bodies[tgt_]
+                continue
+        break
     dom = common.mir_dominators(body)
     blocks = common.mir_blocks(body)
     writes = common.mir_calls_deep(crate, body, lambda c: c == "cert::PemCertifiedKey::write")
@@ -118,7 +134,14 @@ def order(cfg, crate, rep):
             n += 1
             rep.ob("C18.order", key + "|" + f + "|before-first-write", bid in dom[w1] and bid != w1, "every fallible, option-dependent step dominates the first file write (nothing is written when it fails)", found="bb%d vs first write bb%d" % (bid, w1), sp=t.get("sp"))
     opt = common.mir_calls_deep(crate, body, lambda c: c.endswith("OptionParser::run"))
-    rep.ob("C18.order", key + "|options-first", len(opt) == 1 and opt[0][0] in dom[w1] and all(opt[0][0] in dom[bid] for f in fallible for bid, t in common.mir_calls_deep(crate, body, lambda c, f=f: c == f)), "option parsing (incl. parse_sans) precedes everything", found=len(opt))
+    if not opt and outer:
+        # options are parsed in `main` before it delegates: that call dominates the delegating call
+        ob_, call_bid = outer[0]
+        odom = common.mir_dominators(ob_)
+        oopt = common.mir_calls_deep(crate, ob_, lambda c: c.endswith("OptionParser::run"))
+        rep.ob("C18.order", key + "|options-first", len(oopt) == 1 and oopt[0][0] in odom[call_bid] and oopt[0][0] != call_bid, "option parsing precedes everything (in main, before it delegates)", found=len(oopt))
+    else:
+      rep.ob("C18.order", key + "|options-first", len(opt) == 1 and opt[0][0] in dom[w1] and all(opt[0][0] in dom[bid] for f in fallible for bid, t in common.mir_calls_deep(crate, body, lambda c, f=f: c == f)), "option parsing (incl. parse_sans) precedes everything", found=len(opt))
     # after the first write: only serialisation / writes / error plumbing
     after = common.mir_reachable(body, w1)
     allowed = ("cert::PemCertifiedKey::write", "cert::Ca::serialize_pem", "cert::EndEntity::serialize_pem", "Try>::branch", "FromResidual", "std::ops::Try::branch", "from_residual", "std::convert::From::from", "drop_in_place", "Deref", "as_ref", "::deref", "into")
@@ -138,6 +161,13 @@ def order(cfg, crate, rep):
         if node["k"] in ("Call", "MethodCall") and ty.startswith("std::result::Result<") and (node.get("callee") or "") not in ("Ok", "Err"):
             how = c01._consumed(node, ps)
             rep.ob("C18.order", key + "|propagated|" + (node.get("callee") or node.get("name")), how in ("?", "tail", "return"), "fallible step is propagated (exit non-zero)", found=how, sp=node.get("sp"))
+    for ob_, call_bid in outer:
+        # the delegating call's result must itself be propagated by the outer function
+        for node, ps in common.hir_walk_p(ob_["hir"]):
+            ty = node.get("ty", "")
+            if node["k"] in ("Call", "MethodCall") and ty.startswith("std::result::Result<") and (node.get("callee") or "") not in ("Ok", "Err"):
+                how = c01._consumed(node, ps)
+                rep.ob("C18.order", key + "|propagated|outer|" + (node.get("callee") or node.get("name")), how in ("?", "tail", "return"), "fallible step is propagated (exit non-zero)", found=how, sp=node.get("sp"))
     rep.floor("C18.order", "fallible steps before the first write (%s)" % cfg, n, 5)
 
 
